@@ -286,7 +286,7 @@ func c05RunOne(env *fw.Env, c *c05Case, chunks []string, sc *c05Sched) (*c05Outc
 	cfg.Setup = func(s *sess.Session) {
 		installEditorStubs(s.Dir, "missing")
 		if c.Comp {
-			s.Sh.Completer = c01Completer(len(c.Tokens))
+			s.Sh.Completer = c01CompleterOpt(len(c.Tokens), false)
 		}
 	}
 	s := sess.New(env.T, env.Scratch, cfg)
